@@ -260,12 +260,71 @@ def opPathSpec (args : List String) : Option String := do
   | _ => none
 end ViewOps
 
+/-! ### C14 ray-geometry cache -/
+section CacheOps
+open Arim.RayCache
+
+def methNames : List (String × Meth) := [
+  ("leg_points", .legPoints), ("orientations_of_legs_points", .orient), ("inc_leg_size", .incLegSize),
+  ("inc_leg_cartesian", .incCart), ("inc_leg_radius", .incRadius), ("inc_leg_polar", .incPolar),
+  ("inc_leg_azimuth", .incAzimuth), ("inc_angle", .incAngle), ("signed_inc_angle", .signedInc),
+  ("conventional_inc_angle", .convInc), ("out_leg_cartesian", .outCart), ("out_leg_radius", .outRadius),
+  ("out_leg_polar", .outPolar), ("out_leg_azimuth", .outAzimuth), ("out_angle", .outAngle),
+  ("signed_out_angle", .signedOut), ("conventional_out_angle", .convOut)]
+def meth? (s : String) : Option Meth := (methNames.find? (·.1 == s)).map (·.2)
+def methName (m : Meth) : String := ((methNames.find? (·.2 == m)).map (·.1)).getD "?"
+
+def flag? (c : Char) : Option (Option Bool) :=
+  if c == 'T' then some (some true) else if c == 'F' then some (some false) else if c == 'N' then some none else none
+
+def parseQ (s : String) : Option (Meth × Int × Bool) :=
+  match s.splitOn ":" with
+  | [m, r, f] => do let m ← meth? m; let r ← int? r; pure (m, r, f == "1")
+  | _ => none
+
+def parseOp (s : String) : Option Op :=
+  match s.splitOn "=" with
+  | ["q", q] => (parseQ q).map (fun (m, r, f) => Op.query m r f)
+  | ["ci"] => some .clearIntermediate
+  | ["ca"] => some .clearAll
+  | ["pc", qs] => ((splitNE qs "+").mapM parseQ).map Op.precompute
+  | ["pc"] => some (.precompute [])
+  | ["bs"] => some .beamspread
+  | ["rbs"] => some .revBeamspread
+  | ["tr"] => some .transRefl
+  | _ => none
+
+def showRes : Res → String
+  | .ok .none => "none" | .ok .val => "val" | .error .index => "eIndex" | .error .value => "eValue"
+
+def keyStr (k : Key) : String := methName k.1 ++ ":" ++ toString k.2
+def sortStrs (l : List String) : List String := (l.toArray.qsort (· < ·)).toList
+
+/-- `rgcache <n> <incflags> <outflags> <raw 0|1> op ...` → per op `answers|cache keys|final keys` -/
+def opRgCache (args : List String) : Option String := do
+  match args with
+  | n :: inc :: out :: raw :: ops =>
+    let n ← nat? n
+    let incF ← inc.toList.mapM flag?
+    let outF ← out.toList.mapM flag?
+    let g : Geo := { n := n, incSide := fun i => (incF[i]?).join, outSide := fun i => (outF[i]?).join,
+                     rawZeroTest := raw == "1" }
+    let ops ← ops.mapM parseOp
+    let (outs, _) := ops.foldl (fun (acc : List String × St) op =>
+      let (rs, s') := step g acc.2 op
+      (acc.1 ++ [join (rs.map showRes) "+" ++ "|" ++ join (sortStrs (s'.cache.map (fun e => keyStr e.1))) ++ "|" ++
+        join (sortStrs (s'.finals.map keyStr))], s')) ([], {})
+    pure (join outs ";")
+  | _ => none
+end CacheOps
+
 def dispatch (op : String) (args : List String) : String :=
   let r : Option String :=
     match op with
     | "fermat" => opFermat args
     | "minplus" => opMinPlus args
     | "chunks" => opChunks args
+    | "rgcache" => opRgCache args
     | "viewnames" => opViewnames args
     | "recip" => opRecip args
     | "pathspec" => opPathSpec args
